@@ -188,6 +188,16 @@ def simulate_event(sess, step, store):  # noqa: C901
     init_arr = _init_arrays(m, {k: init[k] for k in order}, int_init=bool(step.get("int_init")), np_init=bool(step.get("np_init")))
     n_agents = len(next(iter(init.values())))
     targets = step.get("targets") or []
+    embed = step.get("embed")
+    if embed:
+        # the k agents of this step are simulated inside a large batch: agent i of the large batch has the initial state of agent
+        # i mod k, and the agents at embed["positions"] (position j is congruent to j mod k, ascending) are kept.  The frame of
+        # the kept agents, renumbered 0..k-1, must be a frame of these k agents simulated on their own (C08), so everything
+        # below treats it as one.  Only selection and renumbering happen here.
+        n_full = int(embed["n_full"])
+        reps = -(-n_full // n_agents)
+        init_arr = {k: (np.tile(np.asarray(v), reps)[:n_full] if step.get("np_init") else jnp.tile(jnp.asarray(v), reps)[:n_full])
+                    for k, v in init_arr.items()}
     kwargs = {"initial_states": init_arr, "seed": step.get("seed", 0)}
     if step.get("seed", 0) is None:      # the caller does not pass a seed: the documented default applies
         del kwargs["seed"]
@@ -227,6 +237,15 @@ def simulate_event(sess, step, store):  # noqa: C901
     df = f(p, **kwargs)
     if hooks is not None and step.get("record_steps"):
         steps = _sim_steps(m, hooks.drain())
+    full_rows = int(len(df))
+    if embed:
+        pos = [int(x) for x in embed["positions"]]
+        ren = {a: j for j, a in enumerate(pos)}
+        ids = df.index.get_level_values(-1)
+        df = df[ids.isin(pos)]
+        if df.index.nlevels == 2:
+            df.index = df.index.set_levels([df.index.levels[0], df.index.levels[1]], verify_integrity=False)
+            df = df.set_axis(df.index.map(lambda ti: (ti[0], ren[ti[1]])).set_names(list(df.index.names)), axis=0)
     store["df"] = df
     sn = MDL.state_names(m)
     cn = MDL.choice_names(m)
@@ -249,7 +268,8 @@ def simulate_event(sess, step, store):  # noqa: C901
             "V": [_flat(v) for v in Vused] if (Vused is not None and need_v) else [],
             "N": n_agents, "init": {k: [MDL.q(x) for x in v] for k, v in init.items()},
             "targets": list(targets), "cols": [str(c) for c in df.columns], "index": index, "rows": rows,
-            "index_names": [str(x) for x in df.index.names], "steps": steps}
+            "index_names": [str(x) for x in df.index.names], "steps": steps,
+            "full_N": int(embed["n_full"]) if embed else n_agents, "full_rows": full_rows}
 
 
 def _sim_steps(m, evs):
